@@ -106,8 +106,7 @@ static int split_record (hawk_rtx_t* rtx, int prefer_number)
 	hawk_oocs_t tok;
 	hawk_ooch_t* p, * px;
 	hawk_oow_t len, nflds;
-	hawk_val_t* v, * fs;
-	hawk_val_type_t fsvtype;
+	hawk_val_t* v;
 	hawk_ooch_t* fs_ptr, * fs_free;
 	hawk_oow_t fs_len;
 	int how;
@@ -115,27 +114,20 @@ static int split_record (hawk_rtx_t* rtx, int prefer_number)
 	/* inrec should be cleared before split_record is called */
 	HAWK_ASSERT (rtx->inrec.nflds == 0);
 
-	/* get FS */
-	fs = hawk_rtx_getgbl(rtx, HAWK_GBL_FS);
-	fsvtype = HAWK_RTX_GETVALTYPE (rtx, fs);
-	if (fsvtype == HAWK_VAL_NIL)
+	/* get FS - the text made of it when it was assigned. rtx->gbl.fs is
+	 * compiled from this text. converting the value again here can give
+	 * another text - FS = 2.5 followed by a change of CONVFMT for instance */
+	if (rtx->gbl.fstext.ptr)
 	{
-		fs_ptr = HAWK_T(" ");
-		fs_len = 1;
-		fs_free = HAWK_NULL;
-	}
-	else if (fsvtype == HAWK_VAL_STR)
-	{
-		fs_ptr = ((hawk_val_str_t*)fs)->val.ptr;
-		fs_len = ((hawk_val_str_t*)fs)->val.len;
-		fs_free = HAWK_NULL;
+		fs_ptr = rtx->gbl.fstext.ptr;
+		fs_len = rtx->gbl.fstext.len;
 	}
 	else
 	{
-		fs_ptr = hawk_rtx_valtooocstrdup(rtx, fs, &fs_len);
-		if (HAWK_UNLIKELY(!fs_ptr)) return -1;
-		fs_free = fs_ptr;
+		fs_ptr = HAWK_T(" ");
+		fs_len = 1;
 	}
+	fs_free = HAWK_NULL;
 
 	/* scan the input record to count the fields */
 	if (fs_len == 5 && fs_ptr[0] ==  HAWK_T('?'))
